@@ -30,7 +30,7 @@ func (check) Cases(tier string) int {
 }
 
 func (check) Rule() string {
-	return "histories of 5-40 operations (SetBool/Int/Uint/Float/String; SetChild of a fresh config, of a child handle - also the receiver itself or a config holding it -, of the history's own root into itself or one of its descendants, of a nil *Config; Remove; Merge of data or of a config of the history itself - the target, a part of it, a config holding it, or a disjoint one - under the default, append, prepend, list-replace and replace policies; Child) over 16 overlapping addresses in both spellings (name+idx and dotted), one write in three at exactly the end of the addressed list, with and without PathSep, one history in five with a lowered MaxIdx(2|3) on every call and one in sixty starting from a list of more than 1024 elements (appending and overwriting above the maximum index), applied to the root and to child handles obtained mid-history (handles of containers, of nil settings, and handles kept across Merges that merge into the container they view); after EVERY step the whole tree is compared with the tree-store model (frame condition), every handle must still show its place, and 6 random addresses plus 2 addresses of existing settings are probed through String/Int/Uint/Float/Bool/Has/Child/CountField(address, with the separator: top-level names, dotted paths, index names)/IsDict/IsArray; writes are read back through the equivalent spelling. Non-trivial = history with at least 3 successful mutations touching overlapping addresses; distinct = distinct operation sequence."
+	return "histories of 5-40 operations (SetBool/Int/Uint/Float/String; SetChild of a fresh config, of a child handle - also the receiver itself or a config holding it -, of the history's own root into itself or one of its descendants, of a nil *Config; Remove; Merge of a container - mostly an empty list or dictionary - onto a nil (padding of a write beyond the end, explicit null) or a primitive found or made below the target, under the default, append, prepend and list-replace policies, kind probes compared with the same merge into an empty configuration; Merge of data or of a config of the history itself - the target, a part of it, a config holding it, or a disjoint one - under the default, append, prepend, list-replace and replace policies; Child) over 16 overlapping addresses in both spellings (name+idx and dotted), one write in three at exactly the end of the addressed list, with and without PathSep, one history in five with a lowered MaxIdx(2|3) on every call and one in sixty starting from a list of more than 1024 elements (appending and overwriting above the maximum index), applied to the root and to child handles obtained mid-history (handles of containers, of nil settings, and handles kept across Merges that merge into the container they view); after EVERY step the whole tree is compared with the tree-store model (frame condition), every handle must still show its place, and 6 random addresses plus 2 addresses of existing settings are probed through String/Int/Uint/Float/Bool/Has/Child/CountField(address, with the separator: top-level names, dotted paths, index names)/IsDict/IsArray; writes are read back through the equivalent spelling. Non-trivial = history with at least 3 successful mutations touching overlapping addresses; distinct = distinct operation sequence."
 }
 
 func (check) Assumptions() []string {
@@ -45,6 +45,7 @@ func (check) Assumptions() []string {
 		"outside, not generated: Merge operands with dotted or index keys (how the padding nils of the normalised operand meet existing settings is C01's nil rule); numbers above MaxIdx or with EnableNumKeys spelled as a segment of a name (C20: such a segment is a name, so it is no spelling of the idx argument); settings with the empty name (the API documents name \"\" as 'idx addresses the list'); references (VarExp) below written addresses",
 		"a removal affects only the addressed setting: IsDict/IsArray of the holder and of every live handle are asked before and after each Remove and must not change (a frame condition on the library alone)",
 		"not demanded: error wording and error classes by depth; negative indices (C07/C20); what IsDict/IsArray answer in absolute terms for a part emptied by removals (also whether a copy keeps the kind of an emptied container); CountField of an empty dictionary",
+		"a container merged by Merge onto a setting that holds no container (a padding nil, an explicit null, a primitive) takes its place as it is, exactly as at an address that holds nothing: IsArray / IsDict / CountField(\"\") / the holder's CountField(name) of it and of every container below it are compared with the same operand merged into an empty configuration (the absolute answers for empty containers stay unjudged)",
 		"getter conversions only on small values (boundaries are C03)",
 	}
 }
@@ -255,7 +256,7 @@ func (h *hist) step() {
 	// what a mutation through a child handle must show through the parent
 	var mutated, firstViaNil bool
 	var mustHave [][]model.Fld
-	op := r.Intn(15)
+	op := r.Intn(16)
 	var crossName, crossWName string // address of an empty container that got settings of the other kind in this step, and of the setting
 	var crossWIdx int
 	var crossed bool
@@ -524,6 +525,12 @@ func (h *hist) step() {
 				break
 			}
 		}
+	case op == 15: // a container (mostly an empty one) merged onto a nil or a primitive, against the same merge onto nothing
+		var m bool
+		if m, mustHave = h.containerOntoNonContainer(t); !m {
+			return
+		}
+		mutated = true
 	case op == 14: // removals on one list (or growth step by step), then a write that skips positions
 		if !h.skipWrite(t) {
 			return
